@@ -1282,4 +1282,108 @@ theorem ser_ok_unique (var1 var2 : Variant) (p1 p2 : Perm) (hv1 : p1.valid) (hv2
       rw [hk] at hb1
       rw [serList_ok_unique (fun q1 q2 v s c1 c2 a1 a2 => ih f2' q1 q2 v s c1 c2 a1 a2) _ _ _ _ _ _ _ _ hb1 hb2]
 
+/-! ## completeness of `hasCycle`: `|heap|` rounds suffice (the explicit bound is adequate) -/
+
+/-- every reference stored in the heap points into the heap -/
+def NoDangling (h : Heap) : Prop := ∀ (r : Ref) o, h[r]? = some o → ∀ s, Val.ref s ∈ o.kids → s < h.length
+
+inductive Walk (h : Heap) : List Ref → Prop
+  | single (r : Ref) : Walk h [r]
+  | cons {a b : Ref} {rest : List Ref} : Edge h a b → Walk h (b :: rest) → Walk h (a :: b :: rest)
+
+theorem nodup_bound : ∀ (n : Nat) (l : List Nat), l.Nodup → (∀ x ∈ l, x < n) → l.length ≤ n := by
+  intro n
+  induction n with
+  | zero =>
+    intro l _ h
+    cases l with
+    | nil => simp
+    | cons a t => exact absurd (h a List.mem_cons_self) (Nat.not_lt_zero _)
+  | succ n ih =>
+    intro l hn hl
+    by_cases hm : n ∈ l
+    · have h1 := ih (l.erase n) (hn.erase n) (by
+        intro x hx
+        have hx' := (List.Nodup.mem_erase_iff hn).mp hx
+        have := hl x hx'.2
+        omega)
+      rw [List.length_erase_of_mem hm] at h1
+      omega
+    · have h1 := ih l hn (by
+        intro x hx
+        have := hl x hx
+        have : x ≠ n := fun e => hm (e ▸ hx)
+        omega)
+      omega
+
+theorem walk_reach {h : Heap} : ∀ {l : List Ref} {a : Ref}, Walk h (a :: l) → ∀ b ∈ a :: l, Reach h a b := by
+  intro l
+  induction l with
+  | nil => intro a _ b hb; simp at hb; subst hb; exact .refl _
+  | cons c t ih =>
+    intro a w b hb
+    cases w with
+    | cons e w' =>
+      rcases List.mem_cons.mp hb with rfl | hb
+      · exact .refl _
+      · exact .step e (ih w' b hb)
+
+theorem walk_dup {h : Heap} : ∀ {l : List Ref}, Walk h l → ¬ l.Nodup → ∃ c ∈ l, ∃ d, Edge h c d ∧ Reach h d c := by
+  intro l w
+  induction w with
+  | single r => intro hn; exact absurd (by simp) hn
+  | @cons a b rest e w' ih =>
+    intro hn
+    by_cases ha : a ∈ b :: rest
+    · exact ⟨a, List.mem_cons_self, b, e, walk_reach w' a ha⟩
+    · have : ¬ (b :: rest).Nodup := fun hnd => hn (List.nodup_cons.mpr ⟨ha, hnd⟩)
+      obtain ⟨c, hc, d, hd⟩ := ih this
+      exact ⟨c, List.mem_cons_of_mem _ hc, d, hd⟩
+
+theorem unsafe_walk (h : Heap) (nd : NoDangling h) : ∀ k r, r < h.length → (safeIter h k).getD r false = false →
+    ∃ l, Walk h (r :: l) ∧ l.length = k ∧ ∀ x ∈ r :: l, x < h.length := by
+  intro k
+  induction k with
+  | zero => intro r hr _; exact ⟨[], .single r, rfl, by simpa using hr⟩
+  | succ k ih =>
+    intro r hr hs
+    simp only [safeIter, safeStep] at hs
+    rw [List.getD_eq_getElem?_getD, List.getElem?_map] at hs
+    have ho : h[r]? = some h[r] := List.getElem?_eq_getElem hr
+    rw [ho] at hs
+    simp only [Option.map_some, Option.getD_some] at hs
+    have : ∃ c ∈ (h[r]).kids, isSafeVal (safeIter h k) c = false := by
+      obtain ⟨c, hc, hn⟩ := List.all_eq_false.mp hs
+      exact ⟨c, hc, by simpa using hn⟩
+    obtain ⟨c, hc, hcs⟩ := this
+    cases c with
+    | ref s =>
+      have hslt := nd r _ ho s hc
+      obtain ⟨l, w, hl, hb⟩ := ih s hslt hcs
+      refine ⟨s :: l, .cons ⟨_, ho, hc⟩ w, by simp [hl], ?_⟩
+      intro x hx
+      rcases List.mem_cons.mp hx with rfl | hx
+      · exact hr
+      · exact hb x hx
+    | _ => simp [isSafeVal] at hcs
+
+/-- on a heap without dangling references `hasCycle` answers true only if a cycle is reachable: the `|heap|` rounds of
+`safeIter` are enough for every heap -/
+theorem reachable_of_hasCycle (h : Heap) (nd : NoDangling h) (r : Ref) (hr : r < h.length)
+    (hc : hasCycle h (.ref r) = true) : CycleReachable h (.ref r) := by
+  have hs : (safeIter h h.length).getD r false = false := by
+    have e : hasCycle h (.ref r) = !((safeIter h h.length).getD r false) := rfl
+    rw [e] at hc
+    cases hx : (safeIter h h.length).getD r false with
+    | false => rfl
+    | true => rw [hx] at hc; cases hc
+  obtain ⟨l, w, hl, hb⟩ := unsafe_walk h nd h.length r hr hs
+  have hnd : ¬ (r :: l).Nodup := by
+    intro hn
+    have := nodup_bound h.length (r :: l) hn hb
+    simp only [List.length_cons, hl] at this
+    omega
+  obtain ⟨c, hc', d, hcd, hdc⟩ := walk_dup w hnd
+  exact ⟨c, d, walk_reach w c hc', hcd, hdc⟩
+
 end OntVerif.Proofs.NeoVal
